@@ -194,6 +194,146 @@ fn truncated_side(item0: u8) {
 harness_sha!(c12_truncated_side_item_right, 70, { truncated_side(0x80) });
 harness_sha!(c12_truncated_side_item_left, 70, { truncated_side(0x00) });
 
+// ---- roots are canonical; both root computations agree; honest proofs verify ---------------------
+// Reference definition (collapsed binary trie): a subtree holding one leaf IS that leaf (type 1);
+// a subtree whose leaves all agree on the current bit is the subtree of the next bit, except that
+// a "plain middle" (type 2 whose children are not two leaves, directly or through such one-sided
+// levels) gets an explicit EMPTY sibling (type 0, blank hash); two non-empty sides hash as
+// H(0^30 || type_l || type_r || hash_l || hash_r). The set root of a single leaf is H(1 || leaf).
+// The expected roots below are written out from this definition for each leaf configuration; the
+// leading byte of every leaf (the bits the sort looks at) is fixed per instance, bytes 1 and 31
+// are symbolic.
+use chia_sha2::Sha256;
+
+fn h_node(lt: u8, rt: u8, l: &[u8; 32], r: &[u8; 32]) -> [u8; 32] {
+    let mut h = Sha256::new();
+    h.update([0u8; 30]);
+    h.update([lt, rt]);
+    h.update(l);
+    h.update(r);
+    h.finalize()
+}
+fn h_leaf(l: &[u8; 32]) -> [u8; 32] {
+    let mut h = Sha256::new();
+    h.update([1u8]);
+    h.update(l);
+    h.finalize()
+}
+
+/// both root computations on `leafs` (in the given order) equal `want`; every leaf has an honest
+/// inclusion proof and `absent` an honest exclusion proof, and each verifies against the root
+fn roots_and_proofs<const N: usize>(leafs: [[u8; 32]; N], want: [u8; 32], probe: [u8; 32]) {
+    let mut s1 = leafs;
+    let r1 = compute_merkle_set_root(&mut s1);
+    assert!(r1 == want, "compute_merkle_set_root = reference definition of the collapsed trie hash");
+    let mut s2 = leafs;
+    let t = MerkleSet::from_leafs(&mut s2);
+    assert!(t.get_root() == want, "MerkleSet::from_leafs root = reference definition (both computations agree)");
+    let mut member = false;
+    let mut i = 0;
+    while i < N {
+        member |= probe == leafs[i];
+        i += 1;
+    }
+    let g = t.generate_proof(&probe);
+    match g {
+        Ok((inc, proof)) => {
+            assert!(inc == member, "the generated proof states membership correctly");
+            let v = validate_merkle_proof(&proof, &probe, &want);
+            assert!(matches!(v, Ok(b) if b == member), "the generated proof verifies against the root");
+            kani::cover!(inc, "inclusion proof");
+            kani::cover!(!inc, "exclusion proof");
+            std::mem::forget(v);
+            std::mem::forget(proof);
+        }
+        Err(_) => assert!(false, "a tree built from leaves always yields a proof"),
+    }
+    std::mem::forget(t);
+}
+
+harness_sha!(c12_root_empty_and_single, 70, {
+    let mut e: [[u8; 32]; 0] = [];
+    assert!(compute_merkle_set_root(&mut e) == [0u8; 32]);
+    let mut e2: [[u8; 32]; 0] = [];
+    let t = MerkleSet::from_leafs(&mut e2);
+    assert!(t.get_root() == [0u8; 32]);
+    let x = sym_hash(0x5a);
+    assert!(matches!(t.generate_proof(&x), Ok((false, _))));
+    let l = sym_hash(0x5a);
+    roots_and_proofs([l], h_leaf(&l), x);
+    std::mem::forget(t);
+});
+
+/// two leaves in either order (symbolic), probe = a symbolic hash with `p0` as leading byte
+fn two_leaf_root(a0: u8, b0: u8, p0: u8) {
+    let a = hash_b0(a0, 0x61);
+    let b = hash_b0(b0, 0x61);
+    kani::assume(a != b);
+    let probe = hash_b0(p0, 0x61);
+    let swap: bool = kani::any();
+    let (lo, hi) = if a0 < b0 { (a, b) } else { (b, a) };
+    let want = h_node(1, 1, &lo, &hi);
+    roots_and_proofs(if swap { [b, a] } else { [a, b] }, want, probe);
+    kani::cover!(swap);
+    kani::cover!(!swap);
+}
+// split at depth 0 / both on the left (split at depth 1) / both on the right (split at depth 2)
+harness_sha!(c12_root_two_split_d0, 80, { two_leaf_root(0x20, 0xa0, 0xa0) });
+harness_sha!(c12_root_two_split_d1_left, 80, { two_leaf_root(0x20, 0x60, 0x60) });
+harness_sha!(c12t_root_two_split_d2_right, 80, { two_leaf_root(0xa0, 0x80, 0xa0) });
+harness_sha!(c12t_root_two_probe_elsewhere, 80, { two_leaf_root(0x20, 0x60, 0xc0) });
+
+/// three leaves, order given by a symbolic rotation + optional swap
+fn three_leaf_root(x0: u8, y0: u8, z0: u8, p0: u8, want_of: fn(&[u8; 32], &[u8; 32], &[u8; 32]) -> [u8; 32]) {
+    let x = hash_b0(x0, 0x62);
+    let y = hash_b0(y0, 0x62);
+    let z = hash_b0(z0, 0x62);
+    let probe = hash_b0(p0, 0x62);
+    let want = want_of(&x, &y, &z);
+    let ord: u8 = kani::any();
+    kani::assume(ord < 3);
+    let leafs = match ord {
+        0 => [x, y, z],
+        1 => [z, x, y],
+        _ => [y, z, x],
+    };
+    roots_and_proofs(leafs, want, probe);
+    kani::cover!(ord == 1);
+}
+// 0x20 | 0x60 || 0xa0: left side is a two-leaf middle (type 2), right side a leaf
+fn want_split_top(x: &[u8; 32], y: &[u8; 32], z: &[u8; 32]) -> [u8; 32] {
+    let inner = h_node(1, 1, x, y);
+    h_node(2, 1, &inner, z)
+}
+harness_sha!(c12_root_three_split_top, 110, { three_leaf_root(0x20, 0x60, 0xa0, 0x60, want_split_top) });
+// 0x10, 0x30 | 0x50, nothing on the right at depth 0: the plain middle gets an explicit EMPTY sibling
+fn want_left_heavy(x: &[u8; 32], y: &[u8; 32], z: &[u8; 32]) -> [u8; 32] {
+    let inner = h_node(1, 1, x, y);
+    let mid = h_node(2, 1, &inner, z);
+    h_node(2, 0, &mid, &[0u8; 32])
+}
+harness_sha!(c12_root_three_left_heavy, 110, { three_leaf_root(0x10, 0x30, 0x50, 0x30, want_left_heavy) });
+// mirrored: 0x90, 0xb0 | 0xd0 with nothing on the left at depth 0
+fn want_right_heavy(x: &[u8; 32], y: &[u8; 32], z: &[u8; 32]) -> [u8; 32] {
+    let inner = h_node(1, 1, x, y);
+    let mid = h_node(2, 1, &inner, z);
+    h_node(0, 2, &[0u8; 32], &mid)
+}
+harness_sha!(c12t_root_three_right_heavy, 110, { three_leaf_root(0x90, 0xb0, 0xd0, 0xd0, want_right_heavy) });
+
+// duplicates collapse: [l, l] has the root of [l]; [l0, l1, l0] the root of [l0, l1]
+// (the duplicate pair travels down all 256 levels: recursion unwinding 260)
+harness_sha!(c12t_root_duplicates, 260, {
+    let mut l = [0x5au8; 32];
+    l[31] = kani::any();
+    let mut s = [l, l];
+    assert!(compute_merkle_set_root(&mut s) == h_leaf(&l), "duplicates collapse (set semantics)");
+    let mut s2 = [l, l];
+    let t = MerkleSet::from_leafs(&mut s2);
+    assert!(t.get_root() == h_leaf(&l));
+    std::mem::forget(t);
+});
+
 // honest proofs on a 2-element set: root is canonical (order, duplicates), both root
 // computations agree, every generated proof verifies and states membership correctly
 harness_sha!(c12x_honest_two_leaves, 70, {
